@@ -1,4 +1,5 @@
 import ServiceModel.Proofs.Once
+import ServiceModel.Proofs.CountEq
 import ServiceModel.Proofs.RestartStable
 /-!
 # Exactly-once settlement over chains that go through zero-height restarts
@@ -102,5 +103,29 @@ theorem spent_leadsR {cfg : Config} {p : Params} {h0 t0 : Int} (hc : CfgOK cfg p
   | step op hw _ ih => exact ih (ReachableR.step op hr hw) (spent_step (reachableR_invAll hc hr).inv op hw r hs)
   | restart height time hre _ ih =>
     exact ih (ReachableR.restart height time hr hre) (spent_restart (reachableR_invAll hc hr) hre r hs)
+
+/-! ### exact batch counters (C12) over chains with restarts -/
+/-- after a restart no batch is running, so the counter equation holds vacuously -/
+theorem restart_ceq {s s' : State} (hall : InvAll s) {height time : Int} (hre : restart s height time = some s') : CEq s' := by
+  obtain ⟨s'', h1, _, _, _, _, _, hexp⟩ := restart_invAll hall height time
+  rw [hre] at h1; injection h1 with h1; subst h1
+  have hesc : ∀ pv, (get s.earned pv).isSome → pv ≠ s.cfg.escrow := fun pv h e => hall.earn pv h (Or.inl e)
+  obtain ⟨hnp, _⟩ := prep_spec hall.inv hesc
+  have hc : entries s'.ctxs = entries (prep s).s.ctxs := by
+    have := congrArg GenesisState.ctxs hexp; simpa [exportG] using this
+  intro c y hy hrun
+  have hy' : get (prep s).s.ctxs c = some y := by rw [← get_entries, ← hc, get_entries]; exact hy
+  obtain ⟨_, hb, _⟩ := prep_ctxs s hnp c y hy'
+  rw [hb] at hrun; cases hrun
+
+theorem ceq_reachableR {cfg : Config} {p : Params} {h0 t0 : Int} (hc : CfgOK cfg p) {s : State}
+    (hr : ReachableR cfg p h0 t0 s) : CEq s := by
+  induction hr with
+  | init => intro c x hx; simp [genesis] at hx
+  | @step s op hr' hw ih =>
+    rcases step_state s op with h1 | ⟨h1, _, _⟩
+    · rw [h1]; exact ih
+    · rw [h1]; exact exec_ceq s op (reachableR_invAll hc hr').inv hw ih
+  | restart height time hr' hre _ => exact restart_ceq (reachableR_invAll hc hr') hre
 
 end SM
